@@ -1009,6 +1009,22 @@ class Program:
         for k in (c.get("resolved"), c.get("path"), c.get("closure")):
             if k and k in self.bodies:
                 return self.bodies[k]
+        # a required method called on `Self` inside a default method of a *private* trait with exactly one implementation in the
+        # crate: that implementation is the only code the call can reach
+        tr = c.get("trait")
+        if tr and c.get("self_ty") == "Self" and not (c.get("krate") or "").startswith(("core", "std", "alloc")):
+            idx = getattr(self, "_sole_impls", None)
+            if idx is None:
+                idx = {}
+                for b_ in self.bodies.values():
+                    it_ = b_.raw.get("impl_trait")
+                    if it_ and not b_.is_closure:
+                        idx.setdefault((it_, b_.name), []).append(b_)
+                self._sole_impls = idx
+            cands = idx.get((tr, c.get("name")), [])
+            if len(cands) == 1 and cands[0].key not in self.exported and \
+                    not any(k2 in self.exported for k2 in self.bodies if k2.startswith(tr + "::")):
+                return cands[0]
         return None
 
     def callers(self):
